@@ -339,4 +339,118 @@ theorem kmersSpaced_spec (n k : Nat) (spacing : List Nat) (hl : spacing.length =
     rw [spacedAt_eq n seq i _ spacing (by rw [radixMult_length, hl]) hb]
     exact (fuseChecked_ofNat n k _ (by rw [spacedWindow_length seq spacing i hb, hl])).symm
 
+/-! ### the constructor delivers sorted offsets -/
+
+theorem mem_insertSorted (x y : Int) (l : List Int) : y ∈ insertSorted x l ↔ y = x ∨ y ∈ l := by
+  induction l with
+  | nil => simp [insertSorted]
+  | cons z zs ih =>
+    simp only [insertSorted]
+    split
+    · simp
+    · simp only [List.mem_cons, ih]
+      constructor
+      · rintro (h | h | h) <;> simp [h]
+      · rintro (h | h | h) <;> simp [h]
+
+theorem insertSorted_sorted (x : Int) (l : List Int) (h : l.Pairwise (· ≤ ·)) :
+    (insertSorted x l).Pairwise (· ≤ ·) := by
+  induction l with
+  | nil => simp [insertSorted]
+  | cons z zs ih =>
+    obtain ⟨hz, hzs⟩ := List.pairwise_cons.mp h
+    simp only [insertSorted]
+    split
+    · rename_i hxz
+      refine List.pairwise_cons.mpr ⟨?_, h⟩
+      intro y hy
+      rcases List.mem_cons.mp hy with rfl | hy
+      · exact hxz
+      · exact Int.le_trans hxz (hz y hy)
+    · rename_i hxz
+      refine List.pairwise_cons.mpr ⟨?_, ih hzs⟩
+      intro y hy
+      rcases (mem_insertSorted x y zs).mp hy with rfl | hy
+      · omega
+      · exact hz y hy
+
+theorem sortInts_sorted (xs : List Int) : (sortInts xs).Pairwise (· ≤ ·) := by
+  induction xs with
+  | nil => simp [sortInts]
+  | cons x xs ih => exact insertSorted_sorted x _ ih
+
+theorem go_sorted (cs : List Char) (i : Nat) :
+    (spacingOfString.go cs i).Pairwise (· ≤ ·) ∧ ∀ o ∈ spacingOfString.go cs i, (i : Int) ≤ o := by
+  induction cs generalizing i with
+  | nil => simp [spacingOfString.go]
+  | cons c cs ih =>
+    obtain ⟨h1, h2⟩ := ih (i + 1)
+    simp only [spacingOfString.go]
+    split
+    · refine ⟨List.pairwise_cons.mpr ⟨fun o ho => by have := h2 o ho; omega, h1⟩, ?_⟩
+      intro o ho
+      rcases List.mem_cons.mp ho with rfl | ho
+      · omega
+      · have := h2 o ho; omega
+    · exact ⟨h1, fun o ho => by have := h2 o ho; omega⟩
+
+theorem sorted_getLast_max (l : List Nat) (h : l.Pairwise (· ≤ ·)) (last : Nat) (hl : l.getLast? = some last) :
+    ∀ o ∈ l, o ≤ last := by
+  induction l with
+  | nil => simp
+  | cons x xs ih =>
+    obtain ⟨hx, hxs⟩ := List.pairwise_cons.mp h
+    cases xs with
+    | nil => simp at hl; subst hl; simp
+    | cons y ys =>
+      have hl' : (y :: ys).getLast? = some last := by simpa [List.getLast?_cons_cons] using hl
+      intro o ho
+      rcases List.mem_cons.mp ho with rfl | ho
+      · have hm : last ∈ y :: ys := List.mem_of_getLast? hl'
+        exact hx last hm
+      · exact ih hxs hl' o ho
+
+/-- `KmerAlphabet.__init__` hands sorted offsets to `create_kmers`: exactly `k` of them, and the
+last one is the largest (the hypotheses of `kmersSpaced_spec`). -/
+theorem kmerNew_spacing (k : Nat) (sp : SpacingArg) (spacing : List Nat)
+    (h : kmerNew k sp = .ok (some spacing)) :
+    spacing.length = k ∧ ∃ last, spacing.getLast? = some last ∧ ∀ o ∈ spacing, o ≤ last := by
+  have key : ∀ a : List Int, a.Pairwise (· ≤ ·) → a.length = k → 2 ≤ k →
+      (a.map Int.toNat).length = k ∧ ∃ last, (a.map Int.toNat).getLast? = some last ∧
+        ∀ o ∈ a.map Int.toNat, o ≤ last := by
+    intro a hs hl hk
+    have hsn : (a.map Int.toNat).Pairwise (· ≤ ·) :=
+      List.Pairwise.map _ (fun x y hxy => Int.toNat_le_toNat hxy) hs
+    refine ⟨by simp [hl], ?_⟩
+    cases hg : (a.map Int.toNat).getLast? with
+    | none =>
+      have : a.map Int.toNat = [] := List.getLast?_eq_none_iff.mp hg
+      simp at this; subst this; simp at hl; omega
+    | some last => exact ⟨last, rfl, sorted_getLast_max _ hsn last hg⟩
+  unfold kmerNew at h
+  split at h
+  · simp at h
+  · rename_i hk
+    have hk2 : 2 ≤ k := by omega
+    cases sp with
+    | none => simp at h
+    | str s =>
+      simp only at h
+      split at h
+      · simp at h
+      · rename_i hl
+        simp only [Except.ok.injEq, Option.some.injEq] at h; subst h
+        exact key _ (go_sorted s 0).1 (by simpa using hl) hk2
+    | ints xs =>
+      simp only at h
+      split at h
+      · simp at h
+      · split at h
+        · simp at h
+        · split at h
+          · simp at h
+          · rename_i hl
+            simp only [Except.ok.injEq, Option.some.injEq] at h; subst h
+            exact key _ (sortInts_sorted xs) (by simpa using hl) hk2
+
 end BiotiteModel.C03
